@@ -189,6 +189,11 @@ pub fn apply(e: &TieredEngine, op: &str) -> String {
             Ok(r) => r.iter().map(|x| x.doc_id.to_string()).collect::<Vec<_>>().join(","),
             Err(_) => "err".into(),
         },
+        // the background ticker's call: drain only if the recent-write tier says it needs it
+        "nf" => match e.flush_hot_tier(false) {
+            Ok(n) => n.to_string(),
+            Err(_) => "err".into(),
+        },
         "flush" => match e.flush_hot_tier(true) {
             Ok(n) => n.to_string(),
             Err(_) => "err".into(),
@@ -240,6 +245,8 @@ struct Program {
     warm: Vec<String>,
     /// operations a sequential observer runs once every thread has returned (C07: a cacheable search against a fresh one)
     post: Vec<String>,
+    /// cold=1: the naming warm-up leaves out its drain and its snapshot, so the recent-write tier has never been flushed
+    cold: bool,
 }
 
 fn parse_program(fs: &Fields) -> Program {
@@ -262,6 +269,7 @@ fn parse_program(fs: &Fields) -> Program {
         rot: nat(fs, "rot").unwrap_or(0),
         warm: field(fs, "warm").map(|s| s.split(';').map(|x| x.to_string()).collect()).unwrap_or(default_warm),
         post: field(fs, "post").map(|s| s.split(';').map(|x| x.to_string()).collect()).unwrap_or_default(),
+        cold: boolean(fs, "cold").unwrap_or(false),
     }
 }
 
@@ -348,6 +356,9 @@ pub fn run() {
                     // deterministic warm-up: names every lock by first acquisition and leaves documents 1 and 2 behind
                     sched::begin_naming();
                     for w in NAMING_WARMUP {
+                        if p.cold && matches!(*w, "flush" | "snap" | "bl:94:4") {
+                            continue;
+                        }
                         let _ = apply(&built.engine, w);
                     }
                     if built.srv.is_some() {
